@@ -866,6 +866,38 @@ pub fn longrun_ops(cfg: &Cfg, pattern: &str, n: usize) -> Vec<Op> {
             return ops.into_iter().filter(|o| s || !matches!(o, Op::Sync)).collect();
         }
         // more entries than one purge batch expire at the same reading
+        // ... and then the update of a key whose expired entry the purge (one batch per
+        // call) has not reached yet, lookups of it, more updates of unpurged keys
+        "massexpiry-upd" => {
+            for i in 0..n {
+                ops.push(Op::Ins(i as u8, 1));
+                if s && i % 50 == 49 {
+                    ops.push(Op::Sync);
+                }
+            }
+            ops.push(Op::Sync);
+            ops.push(Op::Adv(2));
+            ops.push(Op::Ins((n - 1) as u8, 1));
+            ops.push(Op::Get((n - 1) as u8));
+            ops.push(Op::Con((n - 1) as u8));
+            ops.push(Op::Ins((n - 2) as u8, 1));
+            ops.push(Op::Iter);
+            ops.push(Op::Sync);
+            ops.push(Op::Get((n - 1) as u8));
+            ops.push(Op::Get((n - 2) as u8));
+            ops.push(Op::Ins((n - 3) as u8, 1));
+            ops.push(Op::Inv((n - 2) as u8));
+            ops.push(Op::Iter);
+            ops.push(Op::Adv(1));
+            ops.push(Op::Get((n - 1) as u8));
+            ops.push(Op::Sync);
+            ops.push(Op::Adv(1));
+            ops.push(Op::Iter);
+            ops.push(Op::Ins(0, 1));
+            ops.push(Op::Sync);
+            ops.push(Op::Iter);
+            return ops.into_iter().filter(|o| s || !matches!(o, Op::Sync)).collect();
+        }
         "massexpiry" => {
             for i in 0..n {
                 ops.push(Op::Ins(i as u8, 1));
